@@ -344,20 +344,9 @@ def _attributes(e):
 
 
 def sessions_of(entries, cuts):
-    """consecutive write sessions; a session without any member that has data is merged into its neighbour
-    (py7zr's writer would emit a folder without sub-streams for it, which its own reader mishandles -- that
-    is another property's finding)"""
+    """consecutive write sessions (a session of empty members only leaves a folder without sub-streams)"""
     bounds = [0] + [c for c in sorted(set(cuts)) if 0 < c < len(entries)] + [len(entries)]
-    sess = [[a, b] for a, b in zip(bounds, bounds[1:]) if a < b]
-    out = []
-    for a, b in sess:
-        if out and not any(not e["empty"] for e in entries[a:b]):
-            out[-1][1] = b
-        elif out and not any(not e["empty"] for e in entries[out[-1][0]:out[-1][1]]):
-            out[-1][1] = b
-        else:
-            out.append([a, b])
-    return out
+    return [[a, b] for a, b in zip(bounds, bounds[1:]) if a < b]
 
 
 def build_archive(entries, cuts):
